@@ -162,6 +162,83 @@ theorem processAllV_no_panic (A : SecArith R) (fmax : R → R → R) (F : FnsV R
         | none => rw [hv] at hs; cases hs
         | some r => rw [hv] at hp; cases hp
 
+/-! ### locality -/
+
+/-- running over `os₁ ++ os₂` = running over `os₁`, then over `os₂` from the state reached -/
+theorem processAllV_append (A : SecArith R) (fmax : R → R → R) (F : FnsV R P σ) (fuel : Nat) :
+    ∀ (os₁ os₂ : List (Obj R P)) (st : StateV R σ),
+      processAllV A fmax F fuel st (os₁ ++ os₂)
+        = (processAllV A fmax F fuel st os₁).bind fun st' => processAllV A fmax F fuel st' os₂ := by
+  intro os₁
+  induction os₁ with
+  | nil => intro os₂ st; simp [processAllV, Res.bind]
+  | cons o os ih =>
+    intro os₂ st
+    simp only [List.cons_append, processAllV]
+    cases processV A fmax F fuel st o with
+    | ok st1 => exact ih os₂ st1
+    | panic => rfl
+    | fuel => rfl
+
+/-- one `process` call appends exactly one object strain and keeps the stored peaks as a prefix -/
+theorem processV_grows (A : SecArith R) (fmax : R → R → R) (F : FnsV R P σ) (fuel : Nat)
+    (st st' : StateV R σ) (o : Obj R P) (h : processV A fmax F fuel st o = .ok st') :
+    ∃ v, st'.objectStrains = st.objectStrains ++ [v] := by
+  unfold processV at h
+  revert h
+  generalize hst0 : (if o.idx = 0 then { st with sectionEnd := A.ceilSec o.startTime } else st) = st0
+  intro h
+  have hobj : st0.objectStrains = st.objectStrains := by
+    rw [← hst0]; split <;> rfl
+  simp only at h
+  cases hl : sectionLoopV A F o fuel st0 with
+  | none => rw [hl] at h; cases h
+  | some st1 =>
+    rw [hl] at h
+    have h1 : st1.objectStrains = st0.objectStrains := by
+      clear h hst0 hobj
+      induction fuel generalizing st0 with
+      | zero =>
+        unfold sectionLoopV at hl
+        split at hl
+        · cases hl
+        · cases hl; rfl
+      | succ n ih =>
+        unfold sectionLoopV at hl
+        split at hl
+        · have := ih _ hl
+          exact this
+        · cases hl; rfl
+    simp only at h
+    cases hv : F.strainValueAt st1.sk o with
+    | none => rw [hv] at h; cases h
+    | some r =>
+      rw [hv] at h
+      simp only [Res.ok.injEq] at h
+      subst h
+      exact ⟨r.2, by simp only [h1, hobj]⟩
+
+/-- **Locality of the skill.**  The strains of the first objects do not depend on later objects:
+if the run over `os₁ ++ os₂` succeeds, so does the run over `os₁`, and its object strains are the
+first `os₁.length` object strains of the long run. -/
+theorem processAllV_prefix (A : SecArith R) (fmax : R → R → R) (F : FnsV R P σ) (fuel : Nat) :
+    ∀ (os : List (Obj R P)) (st st' : StateV R σ), processAllV A fmax F fuel st os = .ok st' →
+      ∃ vs, vs.length = os.length ∧ st'.objectStrains = st.objectStrains ++ vs := by
+  intro os
+  induction os with
+  | nil => intro st st' h; unfold processAllV at h; cases h; exact ⟨[], rfl, by simp⟩
+  | cons o os ih =>
+    intro st st' h
+    unfold processAllV at h
+    cases hp : processV A fmax F fuel st o with
+    | ok st1 =>
+      rw [hp] at h
+      obtain ⟨v, hv⟩ := processV_grows A fmax F fuel st st1 o hp
+      obtain ⟨vs, hl, hvs⟩ := ih st1 st' h
+      exact ⟨v :: vs, by simp [hl], by rw [hvs, hv]; simp⟩
+    | panic => rw [hp] at h; cases h
+    | fuel => rw [hp] at h; cases h
+
 /-! ### the bit-level view -/
 
 /-- the encoded concrete skill produces 64-bit patterns, as `Lemmas/Skill.lean` requires -/
